@@ -483,6 +483,46 @@ func c09FromDiff(r *rand.Rand) Case {
 	return c
 }
 
+// the conversion alone, against the model's mod2pop: the same modifications, the operation objects the library makes of them
+func c09FromDiffOps(r *rand.Rand) Case {
+	o := defaultOpts()
+	o.maxDepth = 3
+	o.floats = false
+	l := c08GenDoc(r, o)
+	rr := c08Derive(r, l, o, []string{"n1", "n2", "zz"})
+	if r.Intn(3) == 0 {
+		l, rr = rr, l
+	}
+	var fail []string
+	var mods []diff.Modification
+	var ops []string
+	if pn := guard(func() {
+		mods = *diff.Diff(anyToContainer(l), anyToContainer(rr))
+		if len(mods) > 20 {
+			mods = mods[:20]
+		}
+		for _, m := range mods {
+			obj := xform.DiffMod2PatchOp(m)
+			if obj == nil {
+				fail = append(fail, fmt.Sprintf("DiffMod2PatchOp(%v %s) returned no operation", m.Type, m.Path))
+				return
+			}
+			op := rop{Op: string(obj.Op)}
+			for _, seg := range obj.Path {
+				op.Path = append(op.Path, string(seg))
+			}
+			if obj.Value != nil {
+				op.HasVal, op.Val = true, nodeToAny(obj.Value)
+			}
+			ops = append(ops, op.gallina())
+		}
+	}); pn != "" {
+		fail = append(fail, "panic: "+pn)
+	}
+	return Case{Kind: "from-diff-ops", Desc: map[string]any{"l": l, "r": rr, "mods": modsDesc(mods)},
+		Coq: "CFromDiff " + gList(mods, gMod) + " [" + strings.Join(ops, "; ") + "]", Fail: fail, Nontrivial: len(mods) >= 2}
+}
+
 // operation objects that are no operations: patch.Do answers with an error, never with a panic, and leaves the document alone
 func c09Invalid(r *rand.Rand, start map[string]any) Case {
 	d := anyToContainer(start)
@@ -574,7 +614,7 @@ func c09CopyEdit(r *rand.Rand, start map[string]any, o genOpts) Case {
 func init() {
 	register(&Prop{
 		ID:   "C09",
-		Rule: "sequences of 1-12 JSON Patch operations (add, remove, replace, move, copy, test; value/from occasionally missing) on one generated document; pointers aimed at existing locations, sibling keys, index +-1/len/len+1, non-numeric / negative / non-canonical tokens on lists, scalar parents, moves into own descendants and onto themselves (incl. list items of every kind moved or copied beneath themselves, whose right-hand neighbour would slide into their place), all-digit tokens beyond the machine word, moves under a sibling whose name starts with the source's name; after EVERY step: status and whole document vs an RFC 6902 reference interpreter over plain values (Go) and vs the Coq model of patch.Do and the Coq RFC interpreter; a failing step must leave the document as it was; copy-edit sequences (copy a composite, edit inside the copy, test the source). Non-trivial: a failing step after a succeeding one. Distinct by Gallina term. Every second pointer reaches patch.Do as RFC 6901 text parsed by patch.ParsePath; an eighth of the documents use non-ASCII member names, another eighth names with the escaped characters / and ~ (also as the last token). Half of the patched documents are built by the decoder (shared null leaf), some hold lists with several nulls. Lists of 9, 10, 12 and 20 items. A sixth of the cases (from-diff): the modifications of Diff(L, R) — R derived from L, or L from R — each turned into an operation object by xform.DiffMod2PatchOp (Add -> add, Change -> replace, Delete -> remove; pointer = the steps of the path read independently; value = the leaf) and applied to R step by step against the reference and the model; every 64th case: operation objects that are none (nil, no path, unknown / empty / upper-case name, missing from or value, nil target): an error, no panic, document untouched.",
+		Rule: "sequences of 1-12 JSON Patch operations (add, remove, replace, move, copy, test; value/from occasionally missing) on one generated document; pointers aimed at existing locations, sibling keys, index +-1/len/len+1, non-numeric / negative / non-canonical tokens on lists, scalar parents, moves into own descendants and onto themselves (incl. list items of every kind moved or copied beneath themselves, whose right-hand neighbour would slide into their place), all-digit tokens beyond the machine word, moves under a sibling whose name starts with the source's name; after EVERY step: status and whole document vs an RFC 6902 reference interpreter over plain values (Go) and vs the Coq model of patch.Do and the Coq RFC interpreter; a failing step must leave the document as it was; copy-edit sequences (copy a composite, edit inside the copy, test the source). Non-trivial: a failing step after a succeeding one. Distinct by Gallina term. Every second pointer reaches patch.Do as RFC 6901 text parsed by patch.ParsePath; an eighth of the documents use non-ASCII member names, another eighth names with the escaped characters / and ~ (also as the last token). Half of the patched documents are built by the decoder (shared null leaf), some hold lists with several nulls. Lists of 9, 10, 12 and 20 items. A sixth of the cases (from-diff): the modifications of Diff(L, R) — R derived from L, or L from R — each turned into an operation object by xform.DiffMod2PatchOp (Add -> add, Change -> replace, Delete -> remove; pointer = the steps of the path read independently; value = the leaf) and applied to R step by step against the reference and the model (every other such case: the conversion alone against the model's mod2pop); every 64th case: operation objects that are none (nil, no path, unknown / empty / upper-case name, missing from or value, nil target): an error, no panic, document untouched.",
 		Corpus: func() []Case {
 			d := map[string]any{"a": []any{1, 2}, "s": "x", "c": map[string]any{"k": []any{map[string]any{"v": 1}, 2}}}
 			v := func(x any) rop { return rop{Val: x, HasVal: true} }
@@ -617,6 +657,9 @@ func init() {
 			}
 			if idx%6 == 5 {
 				return c09CopyEdit(r, start, o)
+			}
+			if idx%12 == 9 {
+				return c09FromDiffOps(r)
 			}
 			if idx%6 == 3 {
 				return c09FromDiff(r)
